@@ -13,6 +13,8 @@ every block boundary of every reorg, every snapshot is reopened with `NewDBStore
 audited and caught up, and the model predicts the tip of every commit point.
 -/
 import Verif.Lemmas.Commit
+import Verif.Lemmas.Catchup
+import Verif.Props.C01
 import Verif.Props.C02
 
 namespace Verif.C03
@@ -122,5 +124,105 @@ example : ((Node.init 100 C02.wU).run (toOps wHist2)).isSome = true ∧
 /-- and the catch-up from the mid-reorg image reaches the uninterrupted store -/
 example : ((durableAt (Node.init 100 C02.wU) wHist2 12).run [.apply 3]).map (fun n => n.store.exp 5)
     = ((Node.init 100 C02.wU).run (toOps wHist2)).map (fun n => n.store.exp 5) := by decide
+
+/-! ### catch-up at the level of the manager (M2): which chain the resubmission ends on
+
+The store-level theorem above leaves "the continuation reaches the uninterrupted tip" to the
+manager.  Here it is discharged with the manager model of C01 (`Verif/Model/Chain.lean`,
+`C01.run`).  The catch-up schedule is: **the batches of the original history from the interrupted
+one on, in their original order and batching** (`hist.drop j`), submitted to the reopened manager.
+
+* A commit at a batch boundary (the end of `reorgTo`) makes everything before it durable, so the
+  reopened manager is `run (hist.take j)`: the catch-up reproduces the uninterrupted manager
+  exactly, with no side condition (`catchup_from_batch_boundary`).
+* A commit inside the reorg of batch `j` leaves a manager `m'` on an intermediate tip.  The
+  resubmitted batch ends on the same best chain as in the uninterrupted run provided it returns
+  no error and its last block is sufficiently heavier than the reopened tip
+  (`catchup_interrupted_batch_best`) — the negations of these two hypotheses are the known classes
+  `crash-inside-failing-reorg-keeps-intermediate-tip` and `catchup-near-tie-first-seen`.  The
+  notification counter is the only part of the manager that is not stored, and nothing
+  `AddBlocks` decides depends on it (`addBlocks_setN`), so from then on both managers stay in
+  agreement for the rest of the schedule (`catchup_mid_reorg_partial`).  Still a hypothesis there:
+  that after the interrupted batch the two managers hold the same block records and states (the
+  blocks the interrupted reorg had already validated are the ones the resubmission skips). -/
+
+open Verif.Chain in
+/-- two managers that agree on everything stored end every further history in agreement -/
+theorem run_sameStored (U : Nat → Blk) (hist : List (List Nat)) :
+    ∀ a b : Mgr, SameStored a b → SameStored (C01.run U a hist) (C01.run U b hist) := by
+  induction hist with
+  | nil => intro a b h; exact h
+  | cons x xs ih => intro a b h; exact ih _ _ (addBlocks_sameStored U h x).1
+
+open Verif.Chain in
+/-- **catch-up from a batch-boundary commit is exact**: for every history and every `j`,
+resubmitting the batches from `j` on to the manager as it was after the first `j` batches gives
+the manager of the uninterrupted run — same best chain, records, states, notifications. -/
+theorem catchup_from_batch_boundary (U : Nat → Blk) (hist : List (List Nat)) (j : Nat) :
+    C01.run U (C01.run U Mgr.init (hist.take j)) (hist.drop j) = C01.run U Mgr.init hist := by
+  rw [← C01.run_append, List.take_append_drop]
+
+open Verif.Chain in
+/-- the interrupted batch on the reopened manager (any manager satisfying the manager invariant,
+e.g. any mid-reorg image) ends on the uninterrupted run's best chain outside the two known classes -/
+theorem catchup_interrupted_batch_best {U : Nat → Blk} (hU : Verif.Chain.WFU U) (pre : List (List Nat))
+    (m' : Mgr) (h' : Verif.Chain.Inv U m') (b : Nat) (bs : List Nat)
+    (hok : (addBlocks U (C01.run U Mgr.init pre) (b :: bs)).2 = none)
+    (hh : heavier U (bs.getLastD b) (C01.run U Mgr.init pre).tip = true)
+    (hok' : (addBlocks U m' (b :: bs)).2 = none)
+    (hh' : heavier U (bs.getLastD b) m'.tip = true) :
+    (addBlocks U m' (b :: bs)).1.best = (addBlocks U (C01.run U Mgr.init pre) (b :: bs)).1.best :=
+  catchup_interrupted_batch hU (C01.inv_reachable hU pre) h' b bs hok hh hok' hh'
+
+open Verif.Chain in
+/-- **recover, then catch up, at the manager level** (partial): history `pre ++ (b :: bs) :: rest`,
+the process stops inside the reorg of batch `b :: bs` and reopens as `m'`.  Outside the two known
+classes (hypotheses `hok'`, `hh'`) and given that the resubmitted batch leaves the same block
+records and states (`hrecs`, `hstates`), the catch-up ends on exactly the best chain of the
+uninterrupted run, whatever the remaining batches are. -/
+theorem catchup_mid_reorg_partial {U : Nat → Blk} (hU : Verif.Chain.WFU U) (pre rest : List (List Nat))
+    (m' : Mgr) (h' : Verif.Chain.Inv U m') (b : Nat) (bs : List Nat)
+    (hok : (addBlocks U (C01.run U Mgr.init pre) (b :: bs)).2 = none)
+    (hh : heavier U (bs.getLastD b) (C01.run U Mgr.init pre).tip = true)
+    (hok' : (addBlocks U m' (b :: bs)).2 = none)
+    (hh' : heavier U (bs.getLastD b) m'.tip = true)
+    (hrecs : (addBlocks U m' (b :: bs)).1.recs = (addBlocks U (C01.run U Mgr.init pre) (b :: bs)).1.recs)
+    (hstates : (addBlocks U m' (b :: bs)).1.states = (addBlocks U (C01.run U Mgr.init pre) (b :: bs)).1.states) :
+    (C01.run U m' ((b :: bs) :: rest)).best = (C01.run U Mgr.init (pre ++ (b :: bs) :: rest)).best := by
+  have hb := catchup_interrupted_batch_best hU pre m' h' b bs hok hh hok' hh'
+  rw [C01.run_append]
+  simp only [C01.run]
+  exact (run_sameStored U rest _ _ ⟨hrecs, hstates, hb⟩).2.2
+
+/-- non-vacuity (C01's reorg universe `Ure` of C04 is not imported here; use `C01.Uex`): the
+reopened manager after `[[1, 2]]` catches up with `[[6]]` exactly -/
+example : C01.run C01.Uex (C01.run C01.Uex Verif.Chain.Mgr.init [[1, 2]]) [[6]] =
+    C01.run C01.Uex Verif.Chain.Mgr.init [[1, 2], [6]] :=
+  catchup_from_batch_boundary C01.Uex [[1, 2], [6]] 1
+
+/-- non-vacuity of `catchup_interrupted_batch_best` / `catchup_mid_reorg_partial`: a universe with a
+real reorg (1-2 best, then 3-4 takes over), the process stopping right after block 2 was reverted -/
+def wUre : Nat → Verif.Chain.Blk
+  | 1 => ⟨0, 1, 200, 100, true, true, false, false⟩
+  | 2 => ⟨1, 2, 300, 100, true, true, false, false⟩
+  | 3 => ⟨1, 2, 301, 100, true, true, false, false⟩
+  | 4 => ⟨3, 3, 400, 100, true, true, false, false⟩
+  | _ => ⟨0, 0, 100, 100, false, false, false, false⟩
+
+open Verif.Chain in
+/-- the manager before the interrupted batch `[3, 4]` -/
+def wPre : Mgr := C01.run wUre Mgr.init [[1, 2]]
+open Verif.Chain in
+/-- the image committed after `revert 2` inside the reorg towards 4 -/
+def wMid : Mgr := (revertN wUre 1 (addBlocks.go wUre [3, 4] wPre wPre.tip).1).1
+
+open Verif.Chain in
+example : wMid.best = [1, 0] ∧
+    (addBlocks wUre wPre [3, 4]).2 = none ∧ heavier wUre 4 wPre.tip = true ∧
+    (addBlocks wUre wMid [3, 4]).2 = none ∧ heavier wUre 4 wMid.tip = true ∧
+    (addBlocks wUre wMid [3, 4]).1.best = (addBlocks wUre wPre [3, 4]).1.best ∧
+    (∀ i, i < 8 → (addBlocks wUre wMid [3, 4]).1.recs i = (addBlocks wUre wPre [3, 4]).1.recs i ∧
+                  (addBlocks wUre wMid [3, 4]).1.states i = (addBlocks wUre wPre [3, 4]).1.states i) := by
+  decide
 
 end Verif.C03
